@@ -5,6 +5,7 @@ import LazyDs.Model.Disk
 import LazyDs.Model.Shuffle
 import LazyDs.Model.Heap
 import LazyDs.Model.Db
+import LazyDs.Model.CopyCfg
 /-
   Request families for the Layer B machines: bucket, cache, disk, reshuffle, local, heap, db, groupby.
 -/
@@ -210,5 +211,11 @@ def handleGroupBy (j : Json) : Except String Json := do
       pure (Json.mkObj [("build", Json.str "ok"), ("groupby", Json.str "ok"),
         ("groups", Json.arr (gs.map (fun (g, gd) => Json.arr #[skeyJ g, streamToJson valToJson gd.iter,
             resToJson strsToJson gd.keys])).toArray)])
+
+/-! ### copy(): which attributes the model says each class forwards -/
+
+def handleCopyCfg (j : Json) : Except String Json := do
+  let classes ← (← getArr j "classes").mapM (·.getStr?)
+  pure (Json.mkObj [("forwarded", Json.arr (classes.map (fun c => Json.arr #[Json.str c, strsToJson (CopyCfg.forwarded c)])).toArray)])
 
 end LazyDs.MachDriver
